@@ -185,12 +185,37 @@ identity: the instance of `generated_single_returns_for_equal_arguments` at the 
 kind is covered by the same statement; a site with value equality is covered by the general theorem with its `==`. -/
 theorem every_use_site_is_served_its_own_receiver :
     ∀ s ∈ Gen.Cache.useSites, s.decorator = "single_item_cache" → s.arity = 1 → s.receiverDefinesEq = false →
-    ∀ {F N : Type} [DecidableEq F] (result : F → N) (cost : F × Unit → Int) (t0 : Int) (ops : List (Op (F × Unit))),
-    ∀ e ∈ (gSingleRun cost none Gen.CacheFns.single_init { now := t0, log := [] } ops).2,
+    -- the site configures nothing but (possibly) the validity: the wrapper installed there IS the generated wrapper and its
+    -- key IS the receiver (a `key=` / identity / weak-reference argument would make the key something that can outlive
+    -- the receiver and be met again by a different receiver at the same address)
+    (∀ a ∈ s.decoratorArgs, a.1 = "valid_for_seconds") ∧
+    ∀ {F N : Type} [DecidableEq F] (result : F → N) (cost : F × Unit → Int) (valid : Option Int)
+      (_ : ∀ v, valid = some v → 0 ≤ v) (t0 : Int) (ops : List (Op (F × Unit))),
+    ∀ e ∈ (gSingleRun cost valid Gen.CacheFns.single_init { now := t0, log := [] } ops).2,
       ∃ i stored tm, e.ret = some i ∧
-        (gSingleRun cost none Gen.CacheFns.single_init { now := t0, log := [] } ops).1.2.log[i]? = some (stored, tm) ∧
-        result stored.1 = result e.key.1 :=
-  fun _ _ _ _ _ _ _ _ result cost t0 ops => frame_is_served_its_own_names result cost t0 ops
+        (gSingleRun cost valid Gen.CacheFns.single_init { now := t0, log := [] } ops).1.2.log[i]? = some (stored, tm) ∧
+        result stored.1 = result e.key.1 := by
+  have configured : ∀ s ∈ Gen.Cache.useSites, s.decorator = "single_item_cache" → s.arity = 1 → s.receiverDefinesEq = false →
+      ∀ a ∈ s.decoratorArgs, a.1 = "valid_for_seconds" := by decide
+  intro s hs h1 h2 h3
+  refine ⟨configured s hs h1 h2 h3, ?_⟩
+  intro F N _ result cost valid hv t0 ops e he
+  obtain ⟨i, stored, tm, h1, h2, h3, _⟩ := generated_single_returns_for_equal_arguments cost valid hv t0 ops e he
+  refine ⟨i, stored, tm, h1, h2, ?_⟩
+  rcases h3 with h | ⟨h, _⟩
+  · rw [h]
+  · rw [eq_of_beq h]
+
+/-- What a use site may CONFIGURE (generated fact `decoratorArgs`: the arguments the decorator is called with at the site,
+extracted from the working tree on every run).  The theorems above are about the wrapper whose key is the tuple of the
+call's own argument OBJECTS (held by the cache, so they stay alive and their identity stays theirs) and whose only
+parameters are the validity and the size.  Every site of orso's two decorators passes nothing but these two, by keyword:
+no site replaces the key by something derived from the arguments (`key=`, `id`, a weak reference, a hash), which would
+be a key that can outlive its object and be met again by a different object at the same address. -/
+theorem use_site_arguments_are_the_models_parameters :
+    ∀ s ∈ Gen.Cache.useSites, s.decorator ∈ ["single_item_cache", "lru_cache_with_expiry"] →
+      ∀ a ∈ s.decoratorArgs, a.1 ∈ ["valid_for_seconds", "max_size"] := by
+  decide
 
 /-- Every use site listed in the generated facts is decorated with a cache the framework has theorems for (orso's two)
 or a correspondence for (the functools caches).  Which sites satisfy the hypotheses of the per-site instance above
